@@ -685,7 +685,8 @@ func (x *Exec) applyContract(st *State, f *Frame, con *Contract, sig *types.Sign
 			st.assume(Cmp(">=", r, IntLit(0)))
 			st.assume(Or(Eq(r, IntLit(0)), Not(Term{fmt.Sprintf("(select %s %s)", st.alloc.Name, r.S), SBool})))
 			n := newHeapConst("alloc", []Sort{SInt}, SBool, "al")
-			st.asserts = append(st.asserts, fmt.Sprintf("(= %s (store %s %s true))", n.Name, st.alloc.Name, r.S))
+			// a nil result allocates nothing (nil is never an allocated object)
+			st.asserts = append(st.asserts, fmt.Sprintf("(= %s (ite (= %s 0) %s (store %s %s true)))", n.Name, r.S, st.alloc.Name, st.alloc.Name, r.S))
 			st.alloc = n
 			st.localRefs = append(st.localRefs, r)
 		}
